@@ -29,7 +29,7 @@ def main():
         if a.only and sid not in a.only:
             continue
         d = os.path.dirname(mp)
-        wt = '/tmp/seedwt_%s' % sid
+        wt = '/tmp/seedwt'   # one path for all seeds: the Kani target dir (keyed by the path) and its compiled dependencies are reused
         sh('git -C /repo worktree remove --force %s' % wt)
         r = sh('git -C /repo worktree add -q --detach %s HEAD && git -C %s apply %s/patch.diff' % (wt, wt, d))
         if r.returncode != 0:
